@@ -3,7 +3,7 @@
 use bnum_verif_harness::*;
 
 macro_rules! body_u {
-    (bnum, $T:ty, $U:ty, $S:ty) => {
+    (bnum, $T:ty, $U:ty, $S:ty $(, $rest:tt)*) => {
         body_u!(@common $T, $U, $S);
         group_fn! { extra; args; { let a: $T = args.v(0); let b: $T = args.v(1); let c = args.bool(2); let bs: $S = args.v(1); };
             "strict_add_signed" => a.strict_add_signed(bs),
@@ -12,7 +12,7 @@ macro_rules! body_u {
             match g { "as" => { common(args, out); extra(args, out); true } _ => false }
         }
     };
-    (prim, $T:ty, $U:ty, $S:ty) => {
+    (prim, $T:ty, $U:ty, $S:ty $(, $rest:tt)*) => {
         body_u!(@common $T, $U, $S);
         pub fn run(g: &str, args: &Args, out: &mut String) -> bool {
             match g { "as" => { common(args, out); true } _ => false }
@@ -49,7 +49,7 @@ macro_rules! body_u {
 }
 
 macro_rules! body_i {
-    (bnum, $T:ty, $U:ty, $S:ty) => {
+    (bnum, $T:ty, $U:ty, $S:ty $(, $rest:tt)*) => {
         body_i!(@common $T, $U, $S);
         group_fn! { extra; args; { let a: $T = args.v(0); let b: $T = args.v(1); let c = args.bool(2); let bu: $U = args.v(1); };
             "carrying_add" => a.carrying_add(b, c),
@@ -61,7 +61,7 @@ macro_rules! body_i {
             match g { "as" => { common(args, out); extra(args, out); true } _ => false }
         }
     };
-    (prim, $T:ty, $U:ty, $S:ty) => {
+    (prim, $T:ty, $U:ty, $S:ty $(, $rest:tt)*) => {
         body_i!(@common $T, $U, $S);
         pub fn run(g: &str, args: &Args, out: &mut String) -> bool {
             match g { "as" => { common(args, out); true } _ => false }
